@@ -50,6 +50,7 @@ pub static LIB_PANICKED: std::sync::atomic::AtomicBool = std::sync::atomic::Atom
 pub fn canon_scenario(name: &str) -> bool {
     let name = name.strip_prefix("long_").unwrap_or(name);
     let name = name.strip_prefix("sweep_").unwrap_or(name);
+    let name = name.strip_prefix("giant_").unwrap_or(name);
     name.starts_with("c02") || name.starts_with("c18") || name.starts_with("c20")
 }
 
@@ -161,6 +162,8 @@ pub struct World<A: Cx> {
     pub kst: Vec<&'static str>,
     tabs: Vec<Option<CodonTable<A, Amino>>>,
     iters: Vec<Option<ItBox>>,
+    /// the > 2^32-bit sequence of giant.rs, built on first use and kept across `reset`
+    pub giant: Option<Seq<A>>,
 }
 
 fn st_static(s: &str) -> &'static str {
@@ -190,11 +193,14 @@ impl<A: Cx> World<A> {
             kst: vec!["usize"; 16],
             tabs: (0..4).map(|_| None).collect(),
             iters: (0..4).map(|_| None).collect(),
+            giant: None,
         }
     }
 
     pub fn reset(&mut self) {
+        let g = self.giant.take();
         *self = World::new();
+        self.giant = g;
     }
 
     fn reg(&self, r: usize) -> &SeqSlice<A> {
@@ -284,7 +290,7 @@ impl<A: Cx> World<A> {
                 } else {
                     String::new()
                 };
-                if msg.starts_with("harness:") {
+                if msg.contains("harness:") {
                     if LIB_PANICKED.load(std::sync::atomic::Ordering::Relaxed) {
                         eprintln!("driver stops: {msg} (after an earlier panic of the library under test)");
                         std::process::exit(0);
@@ -417,6 +423,9 @@ impl<A: Cx> World<A> {
 
     fn exec_inner(&mut self, op: &Value) -> Value {
         let name = gs(op, "op");
+        if let Some(v) = crate::giant::exec(self, op) {
+            return v;
+        }
         match name {
             // ---------------------------------------------------------------- constructors
             "parse" | "lit" => {
